@@ -1,9 +1,284 @@
 /-
-  QEModel.C06 — executable model for property C06 (stub; to be filled in).
--/
-import QEModel.Base
-namespace QE.C06
+  QEModel.C06 — discrete Lyapunov and Riccati solvers (quantecon/_matrix_eqn.py).
 
-def handle (_toks : List String) : String := "bad-op"
+  Mirrors
+  * `solve_discrete_lyapunov(method="doubling")`, lines 65-86: `lyapStep`
+    (lines 75-76), `lyapLoop` (the `while diff > 1e-15` loop with the
+    `n_its > max_it` exit of lines 84-86), `lyapDoubling`.
+  * `solve_discrete_riccati(method="doubling")`, lines 170-224: `gammaSel`
+    (choice of γ among the candidates, lines 172-195, on the condition numbers
+    the code computed — `np.linalg.cond` is a parameter), `riccInit`
+    (lines 198-204), `sdaStep` (lines 214-216), `riccLoop` (lines 208-222),
+    `riccDoubling` (… `return H1 + gamma * I`).
+  `np.linalg.solve` is the parameter `sol`; the driver instantiates it with the
+  exact Gauss–Jordan `MatAlg.solve`. Everything is scalar-generic: the driver
+  runs it at `Rat` (exact reference) and at `Float` (same loop in doubles).
+  The qz / bartels-stewart paths delegate to SciPy and are not modelled; they
+  are covered by the spec run of the harness only.
+-/
+import QEModel.MatAlg
+namespace QE.C06
+open QE QE.MatAlg
+
+section generic
+variable {α : Type} [Zero α] [One α] [Add α] [Sub α] [Mul α] [Div α] [Neg α] [BEq α]
+  [LT α] [LE α] [DecidableLT α] [DecidableLE α]
+
+/-- `np.abs` on a scalar -/
+def gabs (x : α) : α := if x < 0 then -x else x
+
+/-! ### Lyapunov doubling -/
+
+/-- lines 75-76: `alpha1 = alpha0 @ alpha0`, `gamma1 = gamma0 + alpha0 @ gamma0 @ alpha0'` -/
+def lyapStep (s : M α × M α) : M α × M α :=
+  (mmul s.1 s.1, madd s.2 (mmul (mmul s.1 s.2) (mT s.1)))
+
+/-- `k` passes of the loop body, no stopping rule -/
+def lyapIter (A B : M α) : Nat → M α × M α
+  | 0 => (A, B)
+  | k + 1 => lyapStep (lyapIter A B k)
+
+/-- line 78: `diff = np.max(np.abs(gamma1 - gamma0))` -/
+def lyapDiff (s s1 : M α × M α) : α := maxAbs gabs (msub s1.2 s.2)
+
+inductive LyapOut (α : Type) where
+  /-- normal return: `gamma1`, final `n_its`, the `diff` of every pass (latest first) -/
+  | ok (X : M α) (nIts : Nat) (diffs : List α)
+  /-- `ValueError("Exceeded maximum iterations …")`, with the `n_its` it reports -/
+  | maxit (nIts : Nat) (diffs : List α)
+
+/-- final `n_its` of a normal return -/
+def LyapOut.its? {α : Type} : LyapOut α → Option Nat
+  | .ok _ n _ => some n
+  | .maxit _ _ => none
+
+/-- The `while diff > tol` loop, entered with `diff` known to exceed `tol`
+    (`diff = 5` initially). `nIts` is the code's `n_its` before the pass. The
+    check `n_its > max_it` (line 84) comes after the pass and before the next
+    `while` test. `fuel` bounds the number of passes (`max_it` suffices). -/
+def lyapLoop (tol : α) (maxIt : Nat) : Nat → Nat → M α × M α → List α → LyapOut α
+  | 0, nIts, _, ds => .maxit nIts ds
+  | fuel + 1, nIts, s, ds =>
+    let s1 := lyapStep s
+    let diff := lyapDiff s s1
+    if nIts + 1 > maxIt then .maxit (nIts + 1) (diff :: ds)
+    else if tol < diff then lyapLoop tol maxIt fuel (nIts + 1) s1 (diff :: ds)
+    else .ok s1.2 (nIts + 1) (diff :: ds)
+
+/-- `solve_discrete_lyapunov(A, B, max_it, method="doubling")` with the literal
+    `1e-15` as the parameter `tol` -/
+def lyapDoubling (tol : α) (maxIt : Nat) (A B : M α) : LyapOut α :=
+  lyapLoop tol maxIt (maxIt + 1) 1 (A, B) []
+
+/-! ### Riccati: choice of γ (lines 172-195) -/
+
+/-- Python's `max(a, b)`: `b` if `b > a` else `a` -/
+def pyMax (a b : α) : α := if a < b then b else a
+
+/-- one candidate: `(gamma, cn, f1, f3)` with `cn = cond(Z)`, `f1 = cond(Z, inf)`,
+    `f3 = cond(I + G0 H0)` as computed by the code; state `(best_gamma, current_min)` -/
+def gammaSelStep (eps : α) (st : Option α × α) (c : α × α × α × α) : Option α × α :=
+  let (g, cn, f1, f3) := c
+  if cn * eps < 1 then
+    let f2 := g * f1
+    let fg := pyMax (pyMax f1 f2) f3
+    if fg < st.2 then (some g, fg) else st
+  else st
+
+/-- lines 172-195: `none` is the `ValueError("Unable to initialize …")`
+    (`current_min == np.inf`) -/
+def gammaSel (eps inf : α) (cands : List (α × α × α × α)) : Option α :=
+  let st := cands.foldl (gammaSelStep eps) (none, inf)
+  if st.2 == inf then none else st.1
+
+/-! ### Riccati: initial triple and structured doubling -/
+
+structure Sda (α : Type) where
+  A : M α
+  G : M α
+  H : M α
+
+/-- lines 198-204 for a given `gamma`. `none` = `solve` failed (LinAlgError). -/
+def riccInit (sol : M α → M α → Option (M α)) (g : α) (A B Q R N : M α) : Option (Sda α) :=
+  let I : M α := ident Q.nr
+  let BB := mmul (mT B) B
+  let BTA := mmul (mT B) A
+  let Rhat := madd R (smul g BB)
+  match sol Rhat (madd N (smul g BTA)), sol Rhat (mT B), sol Rhat N with
+  | some S1, some S2, some S3 =>
+    let Qt := madd (madd (mneg Q) (mmul (mT N) S1)) (smul g I)
+    let G0 := mmul B S2
+    let A0 := msub (mmul (msub I (smul g G0)) A) (mmul B S3)
+    let H0 := msub (smul g (mmul (mT A) A0)) Qt
+    some ⟨A0, G0, H0⟩
+  | _, _, _ => none
+
+/-- lines 214-216 -/
+def sdaStep (sol : M α → M α → Option (M α)) (s : Sda α) : Option (Sda α) :=
+  let I : M α := ident s.A.nr
+  let W1 := madd I (mmul s.G s.H)
+  let W2 := madd I (mmul s.H s.G)
+  match sol W1 s.A, sol W2 (mT s.A), sol W2 (mmul s.H s.A) with
+  | some S1, some S2, some S3 =>
+    some ⟨mmul s.A S1, madd s.G (mmul (mmul s.A s.G) S2), madd s.H (mmul (mT s.A) S3)⟩
+  | _, _, _ => none
+
+/-- `k` structured-doubling passes, no stopping rule -/
+def sdaIter (sol : M α → M α → Option (M α)) (s : Sda α) : Nat → Option (Sda α)
+  | 0 => some s
+  | k + 1 => (sdaIter sol s k).bind (sdaStep sol)
+
+inductive RiccOut (α : Type) where
+  /-- `H1` (the caller adds `gamma * I`), number of passes, errors (latest first) -/
+  | ok (H : M α) (passes : Nat) (errs : List α)
+  /-- `ValueError("Convergence failed after {i} iterations.")` -/
+  | maxit (i : Nat) (errs : List α)
+  /-- `solve` raised inside the loop -/
+  | singular (passes : Nat)
+  /-- loop body never ran, `H1` unbound (only possible when `tol + 1 > tol` is false) -/
+  | unbound
+
+/-- lines 208-222. `i` is the code's counter before the test, `err` the current
+    `error`, `last` the latest `H1` (none before the first pass). -/
+def riccLoop (sol : M α → M α → Option (M α)) (tol : α) (maxIter : Nat) :
+    Nat → Nat → α → Sda α → Option (M α) → List α → RiccOut α
+  | 0, i, _, _, _, es => .maxit i es
+  | fuel + 1, i, err, s, last, es =>
+    if tol < err then
+      if i > maxIter then .maxit i es
+      else
+        match sdaStep sol s with
+        | none => .singular (i - 1)
+        | some s1 =>
+          let e := maxAbs gabs (msub s1.H s.H)
+          riccLoop sol tol maxIter fuel (i + 1) e s1 (some s1.H) (e :: es)
+    else
+      match last with
+      | some H => .ok H (i - 1) es
+      | none => .unbound
+
+/-- `solve_discrete_riccati(..., method="doubling")` after γ has been chosen.
+    Returns `X = H1 + gamma * I` inside `.ok`. -/
+def riccDoubling (sol : M α → M α → Option (M α)) (tol : α) (maxIter : Nat) (g : α)
+    (A B Q R N : M α) : Option (RiccOut α) :=
+  match riccInit sol g A B Q R N with
+  | none => none
+  | some s0 =>
+    match riccLoop sol tol maxIter (maxIter + 2) 1 (tol + 1) s0 none [] with
+    | .ok H p es => some (.ok (madd H (smul g (ident Q.nr))) p es)
+    | r => some r
+
+end generic
+
+/-! ### driver -/
+
+local instance : Zero Float := ⟨0.0⟩
+local instance : One Float := ⟨1.0⟩
+
+def matOf {β : Type} (rs : List (List β)) : M β := M.ofRows rs
+
+/-- all rows have the same positive length -/
+def rect {β : Type} (rs : List (List β)) : Bool :=
+  !rs.isEmpty && rs.all (fun r => r.length == (rs.headD []).length) && (rs.headD []).length > 0
+
+def isSq {β : Type} (rs : List (List β)) : Bool := rect rs && rs.length == (rs.headD []).length
+
+/-- floor(q·2^96)/2^96, printed as `p/q`: a compact exact-enough rendering of huge rationals -/
+def showApprox (q : Rat) : String :=
+  let s : Nat := 2 ^ 96
+  let z : Int := (q.num * (s : Int)) / (q.den : Int)
+  showRat ((z : Rat) / (s : Rat))
+
+def showRatM (X : M Rat) : String := showMat showApprox X.toRows
+def showFloatM (X : M Float) : String := showMat showFloatBits X.toRows
+
+def lyapShow {β : Type} (sm : M β → String) (sd : β → String) : LyapOut β → String
+  | .ok X n ds => s!"ok its={n} diffs={showList sd ds.reverse} X={sm X}"
+  | .maxit n ds => s!"ERR:ValueError its={n} diffs={showList sd ds.reverse}"
+
+def riccShow {β : Type} (sm : M β → String) (sd : β → String) : Option (RiccOut β) → String
+  | none => "ERR:LinAlgError init"
+  | some (.ok X p es) => s!"ok passes={p} errs={showList sd es.reverse} X={sm X}"
+  | some (.maxit i es) => s!"ERR:ValueError i={i} errs={showList sd es.reverse}"
+  | some (.singular p) => s!"ERR:LinAlgError passes={p}"
+  | some .unbound => "ERR:UnboundLocalError"
+
+def showSda {β : Type} (sm : M β → String) : Option (Sda β) → String
+  | none => "ERR:LinAlgError"
+  | some s => s!"A={sm s.A} G={sm s.G} H={sm s.H}"
+
+/-- shape checks the code relies on implicitly (NumPy would raise on a mismatch) -/
+def riccShapesOk {β : Type} (A B Q R N : List (List β)) : Bool :=
+  isSq A && isSq Q && isSq R && rect B && rect N &&
+  A.length == Q.length && B.length == Q.length && (B.headD []).length == R.length &&
+  N.length == R.length && (N.headD []).length == Q.length
+
+def fourTuples {β : Type} : List β → List β → List β → List β → Option (List (β × β × β × β))
+  | [], [], [], [] => some []
+  | a :: as, b :: bs, c :: cs, d :: ds => (fourTuples as bs cs ds).map ((a, b, c, d) :: ·)
+  | _, _, _, _ => none
+
+def handle (toks : List String) : String :=
+  match toks with
+  | "lyap" :: r =>
+    match kvRatMat r "A", kvRatMat r "B", kvRat r "tol", kvNat r "maxit" with
+    | some A, some B, some tol, some mi =>
+      if isSq A && isSq B && A.length == B.length then
+        lyapShow showRatM showApprox (lyapDoubling tol mi (matOf A) (matOf B))
+      else "bad-op"
+    | _, _, _, _ => "bad-op"
+  | "lyapf" :: r =>
+    match kvFloatMat r "A", kvFloatMat r "B", (kv r "tol").bind parseFloat?, kvNat r "maxit" with
+    | some A, some B, some tol, some mi =>
+      if isSq A && isSq B && A.length == B.length then
+        lyapShow showFloatM showFloatBits (lyapDoubling tol mi (matOf A) (matOf B))
+      else "bad-op"
+    | _, _, _, _ => "bad-op"
+  | "lyapk" :: r =>
+    -- k passes without stopping rule (exact): alpha and gamma
+    match kvRatMat r "A", kvRatMat r "B", kvNat r "k" with
+    | some A, some B, some k =>
+      if isSq A && isSq B && A.length == B.length && k ≤ 12 then
+        let s := lyapIter (matOf A) (matOf B) k
+        s!"alpha={showMat showRat s.1.toRows} gamma={showMat showRat s.2.toRows}"
+      else "bad-op"
+    | _, _, _ => "bad-op"
+  | "gammasel" :: r =>
+    match kvFloats r "g", kvFloats r "cn", kvFloats r "f1", kvFloats r "f3",
+          (kv r "eps").bind parseFloat? with
+    | some g, some cn, some f1, some f3, some eps =>
+      match fourTuples g cn f1 f3 with
+      | some cs =>
+        match gammaSel eps (1.0 / 0.0 : Float) cs with
+        | none => "ERR:ValueError"
+        | some b => showFloatBits b
+      | none => "bad-op"
+    | _, _, _, _, _ => "bad-op"
+  | "riccinit" :: r =>
+    match kvRat r "g", kvRatMat r "A", kvRatMat r "B", kvRatMat r "Q", kvRatMat r "R", kvRatMat r "N" with
+    | some g, some A, some B, some Q, some R, some N =>
+      if riccShapesOk A B Q R N then
+        showSda (fun X => showMat showRat X.toRows) (riccInit solve g (matOf A) (matOf B) (matOf Q) (matOf R) (matOf N))
+      else "bad-op"
+    | _, _, _, _, _, _ => "bad-op"
+  | "ricc" :: r =>
+    match kvRat r "g", kvRatMat r "A", kvRatMat r "B", kvRatMat r "Q", kvRatMat r "R", kvRatMat r "N",
+          kvRat r "tol", kvNat r "maxit" with
+    | some g, some A, some B, some Q, some R, some N, some tol, some mi =>
+      if riccShapesOk A B Q R N then
+        riccShow showRatM showApprox
+          (riccDoubling solve tol mi g (matOf A) (matOf B) (matOf Q) (matOf R) (matOf N))
+      else "bad-op"
+    | _, _, _, _, _, _, _, _ => "bad-op"
+  | "riccf" :: r =>
+    match (kv r "g").bind parseFloat?, kvFloatMat r "A", kvFloatMat r "B", kvFloatMat r "Q",
+          kvFloatMat r "R", kvFloatMat r "N", (kv r "tol").bind parseFloat?, kvNat r "maxit" with
+    | some g, some A, some B, some Q, some R, some N, some tol, some mi =>
+      if riccShapesOk A B Q R N then
+        riccShow showFloatM showFloatBits
+          (riccDoubling solve tol mi g (matOf A) (matOf B) (matOf Q) (matOf R) (matOf N))
+      else "bad-op"
+    | _, _, _, _, _, _, _, _ => "bad-op"
+  | _ => "bad-op"
 
 end QE.C06
